@@ -781,6 +781,8 @@ class Interp:
 
     def instantiate(self, cls, args, kwargs):
         o = Obj(cls.name, __class__=cls)
+        if getattr(self, "on_instantiate", None) is not None:
+            self.on_instantiate(o, cls)
         init = self.prog.lookup(cls, "__init__")
         if isinstance(init, FuncInfo):
             self.call_function(init, list(args), dict(kwargs), self_obj=o)
